@@ -1875,6 +1875,21 @@ static int64_t eval2(Node *node, char ***label) {
   return narrow_to_type(node->ty, eval2_raw(node, label));
 }
 
+// Divide two constants; a zero divisor (and the one overflowing quotient)
+// is diagnosed here because the host would trap on it.
+static int64_t eval_div(Node *node, bool is_mod) {
+  int64_t lhs = eval(node->lhs);
+  int64_t rhs = eval(node->rhs);
+
+  if (rhs == 0)
+    error_tok(node->tok, "division by zero in a constant expression");
+  if (node->ty->is_unsigned)
+    return is_mod ? (uint64_t)lhs % rhs : (uint64_t)lhs / rhs;
+  if ((uint64_t)lhs == (uint64_t)1 << 63 && rhs == -1)
+    error_tok(node->tok, "integer overflow in a constant expression");
+  return is_mod ? lhs % rhs : lhs / rhs;
+}
+
 static int64_t eval2_raw(Node *node, char ***label) {
   switch (node->kind) {
   case ND_ADD:
@@ -1884,15 +1899,11 @@ static int64_t eval2_raw(Node *node, char ***label) {
   case ND_MUL:
     return eval(node->lhs) * eval(node->rhs);
   case ND_DIV:
-    if (node->ty->is_unsigned)
-      return (uint64_t)eval(node->lhs) / eval(node->rhs);
-    return eval(node->lhs) / eval(node->rhs);
+    return eval_div(node, false);
   case ND_NEG:
     return -eval(node->lhs);
   case ND_MOD:
-    if (node->ty->is_unsigned)
-      return (uint64_t)eval(node->lhs) % eval(node->rhs);
-    return eval(node->lhs) % eval(node->rhs);
+    return eval_div(node, true);
   case ND_BITAND:
     return eval(node->lhs) & eval(node->rhs);
   case ND_BITOR:
